@@ -14,15 +14,17 @@ Init == x = 0
 Next == x' = x
 Spec == Init /\ [][Next]_x
 
-Wild(n) == [i \in 1..n |-> -1]
+RECURSIVE Wild(_)
+Wild(n) == IF n = 0 THEN <<>> ELSE <<-1>> \o Wild(n - 1)
 PrefixesFrom(s, lo) == {SubSeq(s, 1, t) : t \in lo..Len(s)}
 
 FixedCmds(set) == {k \in 1..Len(CmdsOf(set)) : CmdsOf(set)[k].len >= 0}
 MinFixed(set) == CHOOSE k \in FixedCmds(set) : \A j \in FixedCmds(set) : CmdsOf(set)[k].len <= CmdsOf(set)[j].len
 MaxFixed(set) == CHOOSE k \in FixedCmds(set) : \A j \in FixedCmds(set) : CmdsOf(set)[k].len >= CmdsOf(set)[j].len
 Whole(c) == <<c.cid>> \o Wild(c.len)
-UnknownCids(set) == {c \in 0..255 : LenTab(set)[c + 1] = NoCmd}
-SomeUnknown(set) == CHOOSE c \in UnknownCids(set) : \A d \in UnknownCids(set) : d <= c
+\* 255 is not a CID of any set (proprietary range)
+ASSUME \A s \in SetNames : LenTab(s)[256] = NoCmd
+SomeUnknown(set) == 255
 Tails(set) == { <<>>, Whole(CmdsOf(set)[MinFixed(set)]), Whole(CmdsOf(set)[MaxFixed(set)]), <<SomeUnknown(set)>> }
 
 Heads(set, cid) ==
@@ -34,7 +36,9 @@ Heads(set, cid) ==
         UNION { PrefixesFrom(<<cid, hi * 16 + m>> \o Wild(5 * PopCount4(m)), 1) : hi \in {0, 7, 15}, m \in 0..15 }
     ELSE UNION { PrefixesFrom(<<cid, st>> \o Wild(3), 1) : st \in {0, 3, 4, 8, 16, 28, 32, 227, 255} }
 
-Cases(set) == { <<>> } \cup UNION { { h \o t : h \in Heads(set, cid), t \in Tails(set) } : cid \in 0..255 }
+Cases(set) ==
+    LET tails == Tails(set) IN
+    { <<>> } \cup UNION { { h \o t : h \in Heads(set, cid), t \in tails } : cid \in 0..255 }
 AllCases == UNION { { [set |-> s, t |-> c] : c \in {d \in Cases(s) : Len(d) <= 255} } : s \in SetNames }
 
 ASSUME JsonSerialize(IOEnv.OUT, SetToSeq(AllCases))
